@@ -24,6 +24,7 @@ func TestShrinkingMap(t *testing.T) {
 	rapid.Check(t, func(rt *rapid.T) {
 		o := drawShrinkOpts(rt)
 		h := newHist(check, o.String())
+		defer h.guard(rt)
 		m := shrinkingmap.New[int, int](shrinkOptions(o)...)
 		model := map[int]int{}
 		tr := &shrinkTracker{o: o}
